@@ -53,6 +53,9 @@ def scenarios(tier):
     out.append({'name': 'face_edge _FillValue inside / outside the index range', 'fn': 'scn_fill_range', 'kwargs': {}})
     out.append({'name': 'invalid start_index is refused', 'fn': 'scn_bad_start', 'kwargs': {}})
     out.append({'name': 'sensible_fill_value exceeds every index', 'fn': 'scn_sensible', 'kwargs': {}})
+    out.append({'name': 'derived face-face table (make_face_face_array, loop invariant)', 'fn': 'scn_make_face_face', 'kwargs': {}})
+    for maxn in (3, 4):
+        out.append({'name': f'derived edge-face table (make_edge_face_array, loop invariant)[faces of up to {maxn} edges]', 'fn': 'scn_make_edge_face', 'kwargs': {'maxn': maxn}})
     return out
 
 
@@ -140,6 +143,207 @@ def scn_decode(c, table, fill, si, tr):
             s_implies(s_not(masked), s_eq(arr.fn((r, j)), t.val(r, j))))
     if table != 'face_node':
         c.check(f'the supplied {table} table counts as valid', it.getattr(topo, f'has_valid_{table}_connectivity') is True)
+
+
+def scn_make_edge_face(c, maxn):
+    """make_edge_face_array (real body; LOOP-INVARIANT over the faces, the short inner loop unrolled): edge e lists exactly the faces that name
+    it in their face-edge row, in increasing face order, the rest of its row is missing.  Ghost functions: R(e, f) = number of faces below f
+    that contain edge e, F(e, j) = the j-th face containing e."""
+    from pyvc.api import LoopSpec, loop_invariant, sym_size
+    from pyvc.contract import Contract
+    from pyvc.lib.numpy_ import MASKED
+    it = new_interp(use=[FILL_KEY])
+    ds = inputs.ugrid(c, edges='both', kw_maxn=maxn)
+    nf, ne = ds.info['nface'], ds.info['nedge']
+    topo = it.instantiate(cls(it, 'emsarray.conventions.ugrid', 'Mesh2DTopology'), [ds], {})
+    cnt_f = c.fresh_fn('fe_cnt', z3.IntSort(), z3.IntSort())
+    E = c.fresh_fn('fe_edge', z3.IntSort(), z3.IntSort(), z3.IntSort())
+    R = c.fresh_fn('faces_below', z3.IntSort(), z3.IntSort(), z3.IntSort())        # ghost
+    F = c.fresh_fn('jth_face', z3.IntSort(), z3.IntSort(), z3.IntSort())           # ghost
+
+    def cnt(f):
+        k = cnt_f(zint(f))
+        core.ctx().assume(z3.And(k >= 0, k <= maxn))
+        return k
+
+    def edge(f, col):
+        v = E(zint(f), zint(col))
+        core.ctx().assume(z3.And(v >= 0, v < zint(ne)))        # VALID-UGRID: indexes are in range
+        return v
+
+    def contains(f, e):        # edge e is one of the edges of face f
+        return z3.Or(*[z3.And(col < cnt(f), edge(f, col) == zint(e)) for col in range(maxn)])
+
+    fea = NDArray((nf, maxn), lambda i: mk_int(edge(i[0], i[1])), INT32, lambda i: mk_bool(zint(i[1]) >= cnt(i[0])))
+    topo.attrs['face_edge_array'] = fea          # callee contract: the (decoded or derived) face-edge table, rows padded with missing entries
+
+    def valid_face(f):
+        # VALID-UGRID: the edges of one face are distinct; an edge belongs to at most two faces (so its row of two has room)
+        for a in range(maxn):
+            for b in range(a + 1, maxn):
+                c.assume(z3.Implies(b < cnt(f), edge(f, a) != edge(f, b)))
+            c.assume(z3.Implies(a < cnt(f), R(edge(f, a), zint(f)) <= 1))
+            c.assume(R(edge(f, a), zint(f)) >= 0)            # a count (follows from the definition of R; stated here for the body)
+
+    def define_R(e, f):          # definition of the ghost counter at (e, f): one more when face f contains e
+        c.assume(R(zint(e), zint(f) + 1) == R(zint(e), zint(f)) + z3.If(contains(f, e), 1, 0))
+        c.assume(z3.And(R(zint(e), zint(f)) >= 0, R(zint(e), 0) == 0))
+
+    def define_F(e, f):          # definition of the ghost enumeration at (e, f): the face that raises the counter of e from j to j + 1 is its j-th face
+        c.assume(z3.Implies(contains(f, e), F(zint(e), R(zint(e), zint(f))) == zint(f)))
+
+    def state(k):
+        """the two arrays after k faces, as the invariant describes them"""
+        def count_at(i):
+            return mk_int(R(zint(i[0]), zint(k)))
+
+        def ef_val(i):
+            return mk_int(F(zint(i[0]), zint(i[1])))
+
+        def ef_mask(i):
+            return mk_bool(zint(i[1]) >= R(zint(i[0]), zint(k)))
+        return NDArray((ne, 2), ef_val, INT32, ef_mask), NDArray((ne,), count_at, INT32)
+
+    box = {}
+
+    def init(env):
+        ef, count = env.lookup('edge_face'), env.lookup('edge_face_count')
+        e = c.fresh_int('e0')
+        c.assume(e >= 0)
+        c.assume(e < ne)
+        c.assume(R(e.z, 0) == 0)
+        c.check('before the loop: every edge has seen no face, its row is entirely missing',
+                s_and(s_eq(count.fn((e,)), 0), ef.mask_fn is not None and s_and(core.truthy(ef.mask_fn((e, 0))), core.truthy(ef.mask_fn((e, 1))))))
+
+    def havoc(env, k):
+        f = k
+        valid_face(f)
+        ef, count = state(f)
+        env.vars['edge_face'], env.vars['edge_face_count'] = ef, count
+        box['ef'], box['count'] = ef, count
+
+    def step(env, k):
+        ef, count = env.lookup('edge_face'), env.lookup('edge_face_count')
+        c.check('the loop keeps working on the same two arrays', ef is box['ef'] and count is box['count'])
+        e = c.fresh_int('e')
+        c.assume(e >= 0)
+        c.assume(e < ne)
+        define_R(e, k)
+        define_F(e, k)
+        for col in range(maxn):          # the definitions at the edges of this face (they are the entries the body touches)
+            define_R(mk_int(edge(k, col)), k)
+            define_F(mk_int(edge(k, col)), k)
+        c.check('after face k: the counter of every edge is the number of faces up to k that contain it', s_eq(count.fn((e,)), mk_int(R(e.z, zint(k) + 1))))
+        for j in (0, 1):
+            m = core.truthy(ef.mask_fn((e, j)))
+            c.check(f'after face k: entry {j} of an edge is present exactly when it has more than {j} faces so far', s_eq(m, mk_bool(j >= R(e.z, zint(k) + 1))))
+            c.check(f'after face k: a present entry {j} is the {j}-th face containing the edge', s_implies(s_not(m), s_eq(ef.fn((e, j)), mk_int(F(e.z, j)))))
+
+    def final(env, n):
+        env.vars['edge_face'], env.vars['edge_face_count'] = state(n)
+
+    func = it.class_attr(cls(it, 'emsarray.conventions.ugrid', 'Mesh2DTopology'), 'make_edge_face_array')[1]
+    loop_invariant(it, func, 'for face_index, edge_indexes in enumerate(self.face_edge_array)', LoopSpec(init, havoc, step, final))
+    out = expect_ok(c, 'make_edge_face_array returns', lambda: method(it, topo, 'make_edge_face_array'))
+    c.check('shape (edges, 2), masked integers', len(out.shape) == 2 and s_eq(out.shape[0], ne) and out.shape[1] == 2 and out.mask_fn is not None and out.dtype.kind == 'i')
+    e, j = c.fresh_int('eq'), c.fresh_int('jq')
+    c.assume(z3.And(e.z >= 0, e.z < zint(ne), j.z >= 0, j.z < 2))
+    c.check('edge e lists exactly its R(e, all faces) faces: entry j is present iff j is below that number', s_eq(core.truthy(out.mask_fn((e, j))), mk_bool(j.z >= R(e.z, zint(nf)))))
+    c.check('and entry j is the j-th face (in increasing face order) whose face-edge row names e', s_implies(s_not(core.truthy(out.mask_fn((e, j)))), s_eq(out.fn((e, j)), mk_int(F(e.z, j.z)))))
+
+
+def scn_make_face_face(c):
+    """make_face_face_array (real body; LOOP-INVARIANT over the edges): face f lists, in increasing edge order, the face on the other side of
+    every interior edge it is on; boundary edges (one missing entry) add nothing.  Ghost functions: Q(f, e) = number of interior edges below e
+    that face f is on, N(f, j) = the neighbour across the j-th of them."""
+    from pyvc.api import LoopSpec, loop_invariant
+    it = new_interp(use=[FILL_KEY])
+    ds = inputs.ugrid(c, edges='both')
+    nf, ne, maxn = ds.info['nface'], ds.info['nedge'], ds.info['maxn']
+    topo = it.instantiate(cls(it, 'emsarray.conventions.ugrid', 'Mesh2DTopology'), [ds], {})
+    Lf = c.fresh_fn('ef_left', z3.IntSort(), z3.IntSort())
+    Rf = c.fresh_fn('ef_right', z3.IntSort(), z3.IntSort())
+    n_present = c.fresh_fn('ef_cnt', z3.IntSort(), z3.IntSort())          # 0, 1 or 2 entries present, as a prefix of the row
+    Q = c.fresh_fn('edges_below', z3.IntSort(), z3.IntSort(), z3.IntSort())          # ghost
+    N = c.fresh_fn('jth_neighbour', z3.IntSort(), z3.IntSort(), z3.IntSort())        # ghost
+
+    def side(e, j):
+        v = (Lf if j == 0 else Rf)(zint(e))
+        core.ctx().assume(z3.And(v >= 0, v < zint(nf)))       # VALID-UGRID: indexes are in range
+        return v
+
+    def present(e):
+        k = n_present(zint(e))
+        core.ctx().assume(z3.And(k >= 0, k <= 2))
+        return k
+
+    def interior(e):
+        return present(e) == 2
+
+    def on(f, e):
+        return z3.And(interior(e), z3.Or(side(e, 0) == zint(f), side(e, 1) == zint(f)))
+
+    efa = NDArray((ne, 2), lambda i: mk_int(z3.If(zint(i[1]) == 0, side(i[0], 0), side(i[0], 1))), INT32, lambda i: mk_bool(zint(i[1]) >= present(i[0])))
+    topo.attrs['edge_face_array'] = efa           # callee contract: the (decoded or derived) edge-face table
+
+    def valid_edge(e):
+        # VALID-UGRID: the two faces of an interior edge differ; a face is on at most max_node_count interior edges (its row has room)
+        c.assume(z3.Implies(interior(e), side(e, 0) != side(e, 1)))
+        for j in (0, 1):
+            c.assume(z3.And(Q(side(e, j), zint(e)) >= 0, z3.Implies(interior(e), Q(side(e, j), zint(e)) < zint(maxn))))
+
+    def define(f, e):
+        c.assume(Q(zint(f), zint(e) + 1) == Q(zint(f), zint(e)) + z3.If(on(f, e), 1, 0))
+        c.assume(z3.And(Q(zint(f), zint(e)) >= 0, Q(zint(f), 0) == 0))
+        other = z3.If(side(e, 0) == zint(f), side(e, 1), side(e, 0))
+        c.assume(z3.Implies(on(f, e), N(zint(f), Q(zint(f), zint(e))) == other))
+
+    def state(k):
+        ff = NDArray((nf, maxn), lambda i: mk_int(N(zint(i[0]), zint(i[1]))), INT32, lambda i: mk_bool(zint(i[1]) >= Q(zint(i[0]), zint(k))))
+        cnt = NDArray((nf,), lambda i: mk_int(Q(zint(i[0]), zint(k))), INT32)
+        return ff, cnt
+
+    box = {}
+
+    def init(env):
+        ff, cnt = env.lookup('face_face'), env.lookup('face_count')
+        f = c.fresh_int('f0')
+        j = c.fresh_int('j0')
+        c.assume(z3.And(f.z >= 0, f.z < zint(nf), j.z >= 0, j.z < zint(maxn)))
+        c.assume(Q(f.z, 0) == 0)
+        c.check('before the loop: no face has a neighbour yet, every row is entirely missing',
+                s_and(s_eq(cnt.fn((f,)), 0), ff.mask_fn is not None and core.truthy(ff.mask_fn((f, j)))))
+
+    def havoc(env, k):
+        valid_edge(k)
+        ff, cnt = state(k)
+        env.vars['face_face'], env.vars['face_count'] = ff, cnt
+        box['ff'], box['cnt'] = ff, cnt
+
+    def step(env, k):
+        ff, cnt = env.lookup('face_face'), env.lookup('face_count')
+        c.check('the loop keeps working on the same two arrays', ff is box['ff'] and cnt is box['cnt'])
+        f, j = c.fresh_int('f'), c.fresh_int('j')
+        c.assume(z3.And(f.z >= 0, f.z < zint(nf), j.z >= 0, j.z < zint(maxn)))
+        define(f, k)
+        for sd in (0, 1):
+            define(mk_int(side(k, sd)), k)
+        c.check('after edge k: the counter of every face is the number of interior edges up to k it is on', s_eq(cnt.fn((f,)), mk_int(Q(f.z, zint(k) + 1))))
+        m = core.truthy(ff.mask_fn((f, j)))
+        c.check('after edge k: entry j of a face is present exactly when it is on more than j interior edges so far', s_eq(m, mk_bool(j.z >= Q(f.z, zint(k) + 1))))
+        c.check('after edge k: a present entry j is the face across the j-th interior edge of the face', s_implies(s_not(m), s_eq(ff.fn((f, j)), mk_int(N(f.z, j.z)))))
+
+    def final(env, n):
+        env.vars['face_face'], env.vars['face_count'] = state(n)
+
+    func = it.class_attr(cls(it, 'emsarray.conventions.ugrid', 'Mesh2DTopology'), 'make_face_face_array')[1]
+    loop_invariant(it, func, 'for edge_index, face_indexes in enumerate(self.edge_face_array)', LoopSpec(init, havoc, step, final))
+    out = expect_ok(c, 'make_face_face_array returns', lambda: method(it, topo, 'make_face_face_array'))
+    c.check('shape (faces, max nodes), masked integers', len(out.shape) == 2 and s_eq(out.shape[0], nf) and s_eq(out.shape[1], maxn) and out.mask_fn is not None and out.dtype.kind == 'i')
+    f, j = c.fresh_int('fq'), c.fresh_int('jq')
+    c.assume(z3.And(f.z >= 0, f.z < zint(nf), j.z >= 0, j.z < zint(maxn)))
+    c.check('face f lists exactly its interior edges: entry j is present iff j is below their number', s_eq(core.truthy(out.mask_fn((f, j))), mk_bool(j.z >= Q(f.z, zint(ne)))))
+    c.check('and entry j is the face on the other side of its j-th interior edge (in increasing edge order)', s_implies(s_not(core.truthy(out.mask_fn((f, j)))), s_eq(out.fn((f, j)), mk_int(N(f.z, j.z)))))
 
 
 def scn_dimensions(c, edges, fda, coords_as):
